@@ -15,7 +15,7 @@
 (*         with the Input-level events seen by a recording bottom input    *)
 (*         (C03, C08, C11, C12, C14, C18, C19)                             *)
 (***************************************************************************)
-EXTENDS Limits, Json, IOUtils
+EXTENDS Limits, Containers, Append, Json, IOUtils
 
 Rec == ndJsonDeserialize(IOEnv.TRACE)
 Prop == IOEnv.PROP
@@ -48,6 +48,7 @@ RtOK(r) ==
   /\ r.dv = r.v                                     \* the implementation's
   /\ r.n = Len(r.out)
   /\ r.rest = r.tail
+  /\ "bres" \in DOMAIN r => r.bres = "ok" /\ r.bdv = r.v     \* same through the shared-buffer back-end
 
 (***************************************************************************)
 (* dec                                                                     *)
@@ -149,8 +150,107 @@ CDecOK(r) ==
   /\ (r.res = "ok") = d.ok
   /\ d.ok => r.v = d.v /\ r.n = d.p
 
+(***************************************************************************)
+(* mel / fix: declared maximum, constant and fixed encoded lengths (C13)   *)
+(***************************************************************************)
+MelOK(r) ==
+  LET rt == Resolve(r.E, r.ty)
+      mx == MaxLen(r.E, rt)
+  IN
+  /\ r.res = "ok"
+  /\ mx # -1                                  \* the specification agrees the type is bounded
+  /\ ToNat(r.decl) >= mx                      \* no value encodes to more than declared
+  /\ r.cel => /\ FixedLen(r.E, rt) # -1       \* constant length: every value has exactly it
+              /\ ToNat(r.decl) = FixedLen(r.E, rt)
+  /\ "out" \in DOMAIN r =>
+        /\ IsEncodingOf(r.E, r.ty, r.v, r.out)
+        /\ Len(r.out) <= ToNat(r.decl)
+        /\ r.cel => Len(r.out) = ToNat(r.decl)
+
+FixOK(r) ==
+  LET rt == Resolve(r.E, r.ty) IN
+  /\ r.res = "ok"
+  /\ r.fixed # -1 => /\ FixedLen(r.E, rt) = r.fixed
+                     /\ Len(r.out) = r.fixed
+  /\ IsEncodingOf(r.E, r.ty, r.v, r.out)
+
+(***************************************************************************)
+(* len: peeking the element count (C18)                                    *)
+(***************************************************************************)
+LenOK(r) ==
+  LET rt == Resolve(r.E, r.ty)
+      ct == IF rt.k = "tuple" THEN Resolve(r.E, rt.ts[1]) ELSE rt        \* the leading collection
+      true == IF ct.k = "seq" /\ ZeroElems(r.E, ct) THEN r.coll.rep ELSE FromNat(Len(r.coll), 4)
+      spec == CompactDec(4, r.out, 0)
+  IN
+  /\ r.res = "ok"
+  /\ DigEq(r.n, true)                          \* the collection's true length
+  /\ spec.ok /\ DigEq(spec.v, r.n)             \* = LenPeek of the specification
+
+(***************************************************************************)
+(* like: a value of a type declared to encode like B (C16)                 *)
+(***************************************************************************)
+LikeOK(r) ==
+  /\ r.res = "ok"
+  /\ IsEncodingOf(r.E, r.ty, r.v, r.out)            \* byte for byte the encoding of the B-value
+  /\ r.dres = "ok" /\ r.dv = r.v /\ r.dn = Len(r.out) \* and B's decoder reads it back
+  /\ \A i \in 1..Len(r.alts) :
+        /\ r.alts[i].res = "ok"
+        /\ IF r.alts[i].kind = "size" THEN r.alts[i].n = Len(r.out)
+           ELSE IsEncodingOf(r.E, r.ty, r.v, r.alts[i].out)
+
+(***************************************************************************)
+(* app: a history of append_or_new calls (C15)                             *)
+(***************************************************************************)
+\* abstract sequence values: lists, or [rep |-> count digits] for zero-width items
+AppCount(ty, E, v) == IF ZeroElems(E, ty) THEN Strip(v.rep) ELSE FromNat(Len(v), 4)
+AppConcat(ty, E, a, b) == IF ZeroElems(E, ty) THEN [rep |-> Pad(Strip(DigAdd(a.rep, b.rep)), 8)] ELSE a \o b
+AppOK(r) ==
+  LET ty == r.ty
+      step(acc, st) ==
+        IF ~acc.ok \/ acc.dead THEN acc
+        ELSE LET total == Strip(DigAdd(AppCount(ty, r.E, acc.v), AppCount(ty, r.E, st.b)))
+                 overflow == DigLess(U32Max, total)
+                 expectOk == ~r.garbage /\ ~overflow
+                 nv == AppConcat(ty, r.E, acc.v, st.b)
+             IN IF expectOk
+                THEN [ok |-> st.res = "ok" /\ IsEncodingOf(r.E, ty, nv, st.out), v |-> nv, dead |-> FALSE]
+                ELSE [ok |-> st.res = "err", v |-> acc.v, dead |-> TRUE]
+      fin == FoldLeft(step, [ok |-> TRUE, v |-> r.sv, dead |-> FALSE], r.steps)
+  IN
+  /\ r.garbage \/ Len(r.start) = 0 \/ IsEncodingOf(r.E, ty, r.sv, r.start)   \* the harness's start buffer is what it says
+  /\ fin.ok
+
+(***************************************************************************)
+(* hist: a construction history; the encoding after every operation is the *)
+(* encoding of the logical content (C06)                                   *)
+(***************************************************************************)
+HistOp(E, ty, s, op) ==
+  CASE ty.k = "map" -> MapOp(E, ty.key, s, op)
+    [] ty.k = "set" -> SetOp(E, ty.t, s, op)
+    [] op[1] = "rv" -> LET i == CHOOSE i \in 1..Len(s) : s[i] = op[2] IN RemoveAtIdx(s, i)   \* heap pop
+    [] OTHER -> SeqOp(s, op)
+HistView(E, ty, s) == IF ty.k = "seq" /\ ty.c = "heap" THEN NormHeap(E, ty.t, s) ELSE s
+HistOK(r) ==
+  LET n == Len(r.ops)
+      step(acc, i) ==
+        IF ~acc.ok THEN acc
+        ELSE LET s2 == HistOp(r.E, r.ty, acc.s, r.ops[i])
+                 good == IsEncodingOf(r.E, r.ty, HistView(r.E, r.ty, s2), r.outs[i])
+                 slgood == Len(r.sl) = 0 \/
+                           LET a == r.sl[i][1]  b == r.sl[i][2] IN
+                           IsEncodingOf(r.E, r.ty, SubSeq(s2, a + 1, b), r.sl[i][3])
+             IN [ok |-> good /\ slgood, s |-> s2]
+  IN FoldLeft(step, [ok |-> TRUE, s |-> <<>>], [i \in 1..n |-> i]).ok
+
 RecOK(r) ==
   CASE r.k = "enc" -> EncOK(r)
+    [] r.k = "like" -> LikeOK(r)
+    [] r.k = "app" -> AppOK(r)
+    [] r.k = "hist" -> HistOK(r)
+    [] r.k = "len" -> LenOK(r)
+    [] r.k = "mel" -> MelOK(r)
+    [] r.k = "fix" -> FixOK(r)
     [] r.k = "cenc" -> CEncOK(r)
     [] r.k = "cdec" -> CDecOK(r)
     [] r.k = "rt"  -> RtOK(r)
